@@ -88,8 +88,8 @@ partial def sim (depth : Nat) (calls : List String) : Cfg → List Pt → SimRes
     let re := sim depth calls e (S.filter fun p => p.1.st v != .null)
     { norm := addAll rt.norm re.norm, brk := addAll rt.brk re.brk, cont := addAll rt.cont re.cont, rets := rt.rets ++ re.rets }
   | .ifcode t e, S =>
-    let rt := sim depth calls t ((S.filter fun p => p.1.code != .ok).map fun p => (p.1.apply (.code .bad), p.2))
-    let re := sim depth calls e ((S.filter fun p => p.1.code != .bad).map fun p => (p.1.apply (.code .ok), p.2))
+    let rt := sim depth calls t ((S.filter fun p => p.1.code != .ok).map fun p => (p.1.apply (.test .bad), p.2))
+    let re := sim depth calls e ((S.filter fun p => p.1.code != .bad).map fun p => (p.1.apply (.test .ok), p.2))
     { norm := addAll rt.norm re.norm, brk := addAll rt.brk re.brk, cont := addAll rt.cont re.cont, rets := rt.rets ++ re.rets }
   | .blk b, S =>
     let r := sim depth calls b S
